@@ -439,13 +439,9 @@ def at_value(inst, at):
 # the recorded call sites of C11-field-not-validated (findings/C11.json witness.locations): a Code / Key typed member
 # that no Validate method reaches.  An unvalidated member ANYWHERE ELSE is a new violation.
 UNVALIDATED_LOCS = [re.compile(x) for x in (
-    r"bill/[a-z]+:(lines|discounts|charges)/\*/taxes/\*/cat",
-    r"bill/[a-z]+:totals/taxes/categories/\*/code",
     r"bill/[a-z]+:lines/\*/item/ext/[^/]+",
     r"bill/order:tax/ext/[^/]+",
     r"bill/delivery:tracking/code",
-    r"bill/payment:lines/\*/document/tax/categories/\*/(code|rates/\*/key|rates/\*/ext/[^/]+)",
-    r"bill/payment:tax/categories/\*/(code|rates/\*/key|rates/\*/ext/[^/]+)",
 )]
 
 
